@@ -1304,6 +1304,9 @@ static void cmd_new(char **tok, int ntok)
     if ((v = opt_get(tok, ntok, "maxfrag"))) opts.maxFragLen = atoi(v);
     if ((v = opt_get(tok, ntok, "early"))) opts.tls13SessionMaxEarlyData = atoi(v);
     if ((v = opt_get(tok, ntok, "ocsp"))) opts.OCSPstapling = atoi(v);
+    /* TLS 1.3 record padding (RFC 8446 5.4): to a multiple of a block size, or a fixed number of zero bytes per record */
+    if ((v = opt_get(tok, ntok, "padblock"))) opts.tls13BlockSize = atoi(v);
+    if ((v = opt_get(tok, ntok, "padlen"))) opts.tls13PadLen = atoi(v);
     if ((v = opt_get(tok, ntok, "tls13suites"))) opts.tls13CiphersuitesEnabledClient = atoi(v) ? PS_TRUE : PS_FALSE;
     v = opt_get(tok, ntok, "groups");
     if (v)
@@ -2146,6 +2149,13 @@ static void run_line(char *line)
     else if (!strcmp(tok[0], "close")) cmd_close(tok);
     else if (!strcmp(tok[0], "del")) cmd_del(tok);
     else if (!strcmp(tok[0], "state")) cmd_state(tok);
+    else if (!strcmp(tok[0], "pad"))
+    {
+        /* pad <ep> <blocksize>: switch block padding of outgoing TLS 1.3 records on for a live session */
+        ep_t *e = ep_get(tok[1]);
+        int32 rc = e->ssl ? matrixSslSetTls13BlockPadding(e->ssl, (psSizeL_t) atoi(tok[2])) : -999;
+        emit_begin(&g_out, "pad", e); sb_printf(&g_out, ",\"rcn\":%d,\"block\":%d", rc, atoi(tok[2])); emit_end(&g_out);
+    }
     else if (!strcmp(tok[0], "sid")) cmd_sid(tok, ntok);
     else if (!strcmp(tok[0], "sidedit")) cmd_sidedit(tok, ntok);
     else if (!strcmp(tok[0], "tickkey"))
